@@ -170,6 +170,33 @@ struct Runtime {
     std::mutex ctl_mu;
     std::condition_variable ctl_cv;
     bool round_over = false;
+    // ---- stale-load layer (serial engine only; DESIGN.md 3.2): per-location store histories + vector clocks
+    bool stale = false;
+    struct VC {
+        uint32_t c[MAXT] = {};
+        void join(const VC& o)
+        {
+            for (int i = 0; i < MAXT; i++)
+                if (o.c[i] > c[i]) c[i] = o.c[i];
+        }
+    };
+    struct StoreRec {
+        uint64_t val;
+        VC vc;        // clock of the storing thread at the store (event identity: vc.c[tid])
+        VC sync;      // what an acquire reader obtains (release sequences are continued by RMWs)
+        int tid;      // -1: initial value (happens-before everything)
+        bool has_sync;
+    };
+    struct LocHist {
+        std::vector<StoreRec> recs;      // oldest .. newest (bounded)
+        uint64_t base = 0;               // absolute index of recs[0]
+        uint64_t seen[MAXT] = {};        // absolute index each thread has already observed (coherence)
+    };
+    std::unordered_map<const void*, LocHist> loc;
+    std::unordered_map<const void*, VC> mutex_vc;
+    VC tvc[MAXT];
+    VC global_vc;
+    uint64_t stale_loads = 0, weak_loads = 0;
     // callbacks set by vrf.hpp
     void (*on_violation)(const char* key, const std::string& detail) = nullptr;
 };
@@ -503,6 +530,117 @@ inline void sb_tick(ThreadCtx& c)
     }
 }
 
+// ------------------------------------------------------------------ stale-load layer
+// Active only for vthreads of the serial engine when rt.stale is set.  Soundness rule: wherever the engine is unsure it
+// ADDS happens-before (harness synchronisation, mutexes, RMWs as full release sequences), so every stale answer it gives
+// is an execution the C++ memory model allows for the memory orders written in the source.
+inline bool stale_active(const ThreadCtx& c) { return rt.stale && c.vtid >= 0 && rt.engine.load(std::memory_order_relaxed) == E_SERIAL; }
+inline void stale_reset_round()
+{
+    rt.loc.clear();
+    rt.mutex_vc.clear();
+    for (auto& v : rt.tvc) v = Runtime::VC();
+    rt.global_vc = Runtime::VC();
+}
+inline Runtime::LocHist& stale_hist(const void* a, uint64_t current_raw)
+{
+    auto it = rt.loc.find(a);
+    if (it == rt.loc.end()) {
+        Runtime::LocHist h;
+        h.recs.push_back(Runtime::StoreRec{current_raw, Runtime::VC(), Runtime::VC(), -1, true});
+        it = rt.loc.emplace(a, std::move(h)).first;
+    }
+    return it->second;
+}
+inline void stale_forget(const void* a)
+{
+    if (rt.stale && !rt.loc.empty()) rt.loc.erase(a);
+}
+// a store / RMW by the running thread has just been performed on the real object
+inline void stale_on_store(ThreadCtx& c, const void* a, uint64_t before_raw, uint64_t new_raw, int mo, bool rmw)
+{
+    int t = c.vtid;
+    Runtime::LocHist& h = stale_hist(a, before_raw);
+    Runtime::VC& me = rt.tvc[t];
+    Runtime::StoreRec& prev = h.recs.back();
+    if (rmw) {
+        // an RMW reads the newest value; acquire side (conservatively: always) joins what the newest store publishes
+        if (prev.has_sync) me.join(prev.sync);
+    }
+    me.c[t]++;
+    Runtime::StoreRec r;
+    r.val = new_raw;
+    r.vc = me;
+    r.tid = t;
+    bool release = (mo == static_cast<int>(std::memory_order_release) || mo == static_cast<int>(std::memory_order_acq_rel) ||
+                    mo == static_cast<int>(std::memory_order_seq_cst));
+    r.has_sync = release || (rmw && prev.has_sync);
+    if (release) {
+        r.sync = me;
+        if (rmw && prev.has_sync) r.sync.join(prev.sync);
+    } else if (rmw && prev.has_sync) r.sync = prev.sync;  // continues the release sequence
+    h.recs.push_back(r);
+    if (h.recs.size() > 12) {
+        h.recs.erase(h.recs.begin());
+        h.base++;
+    }
+    h.seen[t] = h.base + h.recs.size() - 1;
+}
+// which value does a load by the running thread return?  `newest_raw`: what the real object holds
+inline uint64_t stale_on_load(ThreadCtx& c, const void* a, uint64_t newest_raw, int mo)
+{
+    int t = c.vtid;
+    Runtime::LocHist& h = stale_hist(a, newest_raw);
+    Runtime::VC& me = rt.tvc[t];
+    size_t newest = h.recs.size() - 1;
+    size_t pick = newest;
+    bool weak = (mo != static_cast<int>(std::memory_order_seq_cst));
+    if (weak) {
+        rt.weak_loads++;
+        // oldest store the thread may still read: not older than what it has observed (coherence), and not older than any
+        // store that happens-before this load
+        size_t lo = 0;
+        if (h.seen[t] > h.base) lo = static_cast<size_t>(h.seen[t] - h.base);
+        for (size_t j = newest + 1; j-- > lo;) {
+            const Runtime::StoreRec& r = h.recs[j];
+            bool hb = (r.tid < 0) || (r.tid == t) || (r.vc.c[r.tid] <= me.c[r.tid]);
+            if (hb) {
+                lo = std::max(lo, j);
+                break;
+            }
+        }
+        if (lo < newest) {
+            uint64_t rnd = splitmix(rt.srng);
+            pick = (rnd & 1) ? lo + (rnd >> 8) % (newest - lo + 1) : newest;
+            if (pick != newest) rt.stale_loads++;
+        }
+    }
+    const Runtime::StoreRec& r = h.recs[pick];
+    bool acquire = (mo != static_cast<int>(std::memory_order_relaxed));
+    if (acquire && r.has_sync) me.join(r.sync);
+    h.seen[t] = std::max<uint64_t>(h.seen[t], h.base + pick);
+    return r.val;
+}
+inline void stale_on_lock(ThreadCtx& c, const void* m)
+{
+    auto it = rt.mutex_vc.find(m);
+    if (it != rt.mutex_vc.end()) rt.tvc[c.vtid].join(it->second);
+}
+inline void stale_on_unlock(ThreadCtx& c, const void* m)
+{
+    rt.tvc[c.vtid].c[c.vtid]++;
+    rt.mutex_vc[m].join(rt.tvc[c.vtid]);
+}
+// harness-level synchronisation (logical clock stamps, completed harness waits): everything so far happens-before
+inline void stale_global_sync(ThreadCtx& c)
+{
+    if (!stale_active(c)) return;
+    Runtime::VC& me = rt.tvc[c.vtid];
+    me.join(rt.global_vc);
+    me.c[c.vtid]++;
+    rt.global_vc.join(me);
+}
+
 // ------------------------------------------------------------------ the hook
 inline void pre(Kind k, const void* obj, int mo = 5)
 {
@@ -594,6 +732,7 @@ class vm_core {
         }
         c.held.push_back(Held{this, shared});
         rt.global_held.fetch_add(1, std::memory_order_relaxed);
+        if (stale_active(c)) stale_on_lock(c, this);
     }
     void shadow_release(ThreadCtx& c, bool shared)
     {
@@ -612,6 +751,7 @@ class vm_core {
                                      "[\"unlock by a thread that does not own the mutex (foreign or double unlock)\"]");
         }
         rt.global_held.fetch_sub(1, std::memory_order_relaxed);
+        if (stale_active(c)) stale_on_unlock(c, this);
         if (shared) sh_shared_.fetch_sub(1, std::memory_order_relaxed);
         else sh_owner_.store(0, std::memory_order_relaxed);
     }
@@ -986,8 +1126,20 @@ struct verif_atomic: public std::atomic<T> {
                 }
             }
         }
+        if constexpr (sizeof(T) <= 8 && std::is_trivially_copyable<T>::value) {
+            if (vrf::stale_active(c)) {
+                T cur = B::load(std::memory_order_seq_cst);
+                uint64_t raw = 0;
+                memcpy(&raw, &cur, sizeof(T));
+                uint64_t got = vrf::stale_on_load(c, static_cast<const B*>(this), raw, static_cast<int>(mo));
+                T out;
+                memcpy(&out, &got, sizeof(T));
+                return out;
+            }
+        }
         return B::load(mo);
     }
+    ~verif_atomic() { vrf::stale_forget(static_cast<const B*>(this)); }
     void store(T v, std::memory_order mo = std::memory_order_seq_cst) noexcept
     {
         vrf::ThreadCtx& c = vrf::ctx();
@@ -1003,6 +1155,18 @@ struct verif_atomic: public std::atomic<T> {
             }
         }
         if (!c.sb.empty()) vrf::sb_flush(c);  // seq_cst store drains the buffer (x86: xchg / mfence)
+        if constexpr (sizeof(T) <= 8 && std::is_trivially_copyable<T>::value) {
+            if (vrf::stale_active(c)) {
+                T cur = B::load(std::memory_order_seq_cst);
+                uint64_t before = 0, after = 0;
+                memcpy(&before, &cur, sizeof(T));
+                memcpy(&after, &v, sizeof(T));
+                B::store(v, mo);
+                vrf::stale_on_store(c, static_cast<const B*>(this), before, after, static_cast<int>(mo), false);
+                vrf::post(vrf::A_STORE, this);
+                return;
+            }
+        }
         B::store(v, mo);
         vrf::post(vrf::A_STORE, this);
     }
@@ -1016,34 +1180,43 @@ struct verif_atomic: public std::atomic<T> {
     {
         rmw_pre(mo);
         T r = B::exchange(v, mo);
+        stale_rmw(r, v, mo);
         vrf::post(vrf::A_RMW, this);
         return r;
     }
     bool compare_exchange_weak(T& e, T d, std::memory_order s, std::memory_order f) noexcept
     {
         cas_pre(s);
+        T vrf_before = e;
         bool r = B::compare_exchange_weak(e, d, s, f);
+        stale_cas(r, vrf_before, e, d, s);
         vrf::post(vrf::A_CAS, this);
         return r;
     }
     bool compare_exchange_weak(T& e, T d, std::memory_order mo = std::memory_order_seq_cst) noexcept
     {
         cas_pre(mo);
+        T vrf_before = e;
         bool r = B::compare_exchange_weak(e, d, mo);
+        stale_cas(r, vrf_before, e, d, mo);
         vrf::post(vrf::A_CAS, this);
         return r;
     }
     bool compare_exchange_strong(T& e, T d, std::memory_order s, std::memory_order f) noexcept
     {
         cas_pre(s);
+        T vrf_before = e;
         bool r = B::compare_exchange_strong(e, d, s, f);
+        stale_cas(r, vrf_before, e, d, s);
         vrf::post(vrf::A_CAS, this);
         return r;
     }
     bool compare_exchange_strong(T& e, T d, std::memory_order mo = std::memory_order_seq_cst) noexcept
     {
         cas_pre(mo);
+        T vrf_before = e;
         bool r = B::compare_exchange_strong(e, d, mo);
+        stale_cas(r, vrf_before, e, d, mo);
         vrf::post(vrf::A_CAS, this);
         return r;
     }
@@ -1052,6 +1225,7 @@ struct verif_atomic: public std::atomic<T> {
     {
         rmw_pre(mo);
         T r = B::fetch_add(d, mo);
+        stale_rmw(r, static_cast<T>(r + d), mo);
         vrf::post(vrf::A_RMW, this);
         return r;
     }
@@ -1060,6 +1234,7 @@ struct verif_atomic: public std::atomic<T> {
     {
         rmw_pre(mo);
         T r = B::fetch_sub(d, mo);
+        stale_rmw(r, static_cast<T>(r - d), mo);
         vrf::post(vrf::A_RMW, this);
         return r;
     }
@@ -1068,6 +1243,7 @@ struct verif_atomic: public std::atomic<T> {
     {
         rmw_pre(mo);
         T r = B::fetch_and(d, mo);
+        stale_rmw(r, static_cast<T>(r & d), mo);
         vrf::post(vrf::A_RMW, this);
         return r;
     }
@@ -1076,6 +1252,7 @@ struct verif_atomic: public std::atomic<T> {
     {
         rmw_pre(mo);
         T r = B::fetch_or(d, mo);
+        stale_rmw(r, static_cast<T>(r | d), mo);
         vrf::post(vrf::A_RMW, this);
         return r;
     }
@@ -1084,6 +1261,7 @@ struct verif_atomic: public std::atomic<T> {
     {
         rmw_pre(mo);
         T r = B::fetch_xor(d, mo);
+        stale_rmw(r, static_cast<T>(r ^ d), mo);
         vrf::post(vrf::A_RMW, this);
         return r;
     }
@@ -1097,6 +1275,35 @@ struct verif_atomic: public std::atomic<T> {
     T operator-=(D d) noexcept { return fetch_sub(d) - d; }
 
   private:
+    void stale_rmw(T old_value, T new_value, std::memory_order mo) noexcept
+    {
+        if constexpr (sizeof(T) <= 8 && std::is_trivially_copyable<T>::value) {
+            vrf::ThreadCtx& c = vrf::ctx();
+            if (!vrf::stale_active(c)) return;
+            uint64_t before = 0, after = 0;
+            memcpy(&before, &old_value, sizeof(T));
+            memcpy(&after, &new_value, sizeof(T));
+            vrf::stale_on_store(c, static_cast<B*>(this), before, after, static_cast<int>(mo), true);
+        }
+    }
+    void stale_cas(bool ok, T expected_before, T observed, T desired, std::memory_order mo) noexcept
+    {
+        if constexpr (sizeof(T) <= 8 && std::is_trivially_copyable<T>::value) {
+            vrf::ThreadCtx& c = vrf::ctx();
+            if (!vrf::stale_active(c)) return;
+            if (ok) {
+                uint64_t before = 0, after = 0;
+                memcpy(&before, &expected_before, sizeof(T));
+                memcpy(&after, &desired, sizeof(T));
+                vrf::stale_on_store(c, static_cast<B*>(this), before, after, static_cast<int>(mo), true);
+            } else {
+                // a failed CAS is a load of the newest value (the real object was read); conservatively an acquire of it
+                uint64_t raw = 0;
+                memcpy(&raw, &observed, sizeof(T));
+                (void)vrf::stale_on_load(c, static_cast<B*>(this), raw, static_cast<int>(std::memory_order_seq_cst));
+            }
+        }
+    }
     void rmw_pre(std::memory_order mo) noexcept
     {
         vrf::ThreadCtx& c = vrf::ctx();
